@@ -3313,7 +3313,7 @@ def _put_one(
 
         try:
             return getattr(new_self.a, field)[idx].f  # may not be there due to removal of last element or raw reparsing of weird *(^$
-        except IndexError:
+        except (IndexError, AttributeError, TypeError):  # raw reparse may have replaced new_self with a node of another kind which doesn't have this field or has something else there
             return None
 
     raw = fst.FST.get_option('raw', options)
@@ -3348,7 +3348,7 @@ def _put_one(
             if ret_child:
                 return child
 
-            return self if self.a else self.repath()
+            return self if self.a else (self.repath() or None)  # None if nothing is there anymore
 
         except Exception as raw_exc:
             raw_exc.__context__ = nonraw_exc
